@@ -771,9 +771,21 @@ def binop(I, st, a, op, b, frame, node):
                     out.append((s2, I.app(opname, [a, b])))
             return out
         if isinstance(op, ast.Pow):
-            if b.is_const() and b.p.const_value().denominator == 1 and 0 <= b.p.const_value() <= 8:
-                return [(st, Num(a.p.pow(int(b.p.const_value())), a.isint))]
-            return [(st, I.app('pow', [a, b]))]
+            out = []
+            cur = [(st, False)]
+            if not a.isint and not a.is_const() and not (b.is_const() and b.p.const_value() in (0, 1)):
+                # float ** n raises OverflowError where the product would merely be inf: a partial operation on numbers whose
+                # magnitude the path does not bound
+                cur = I.decide(st, ('pow-overflow', vkey(a), vkey(b)), BOOL, frozenset([True]))
+            for (s2, ov) in cur:
+                if ov:
+                    s2.ev('partial', 'pow-overflow', frame.qual(), _norm(node), node.lineno)
+                    out.append((s2, Raised('OverflowError', 'float power out of range: %s' % _norm(node), where)))
+                elif b.is_const() and b.p.const_value().denominator == 1 and 0 <= b.p.const_value() <= 8:
+                    out.append((s2, Num(a.p.pow(int(b.p.const_value())), a.isint)))
+                else:
+                    out.append((s2, I.app('pow', [a, b])))
+            return out
         if isinstance(op, (ast.BitXor, ast.BitAnd, ast.BitOr)):
             return [(st, I.app(type(op).__name__, [a, b]))]
         raise Unsupported('numeric operator %s' % type(op).__name__)
